@@ -112,7 +112,7 @@ func C09(c *Ctx) {
 				}
 				nd++
 				key := call.Common().Args[len(call.Common().Args)-1]
-				okKey, badKey := false, fromHead(key)
+				okKey, badKey := fromHeight(key), fromHead(key) // directly: through the fields of a context struct rm fills
 				for pi, gp := range g.Params {
 					pp := gp
 					if pi >= len(hc.Common().Args) || !core.Mentions(key, func(w ssa.Value) bool {
